@@ -460,11 +460,17 @@ Inductive op :=
 | ODelete (p : pos)
 | OMove (from to : pos)
 | OReload (bl : list (pos * list elem))
+| OLabels (ls : list (N * list elem))           (* POST labels: raw ingest of label lists *)
 | LMerge (target : N) (merged : list N)
 | LCleave (target cleaved : N) (incl : pos -> bool)
 | LSplit (old new : N) (blocks : list pos) (inspl : pos -> bool)
 | LMutate (b : pos) (prev data : pos -> N)
 | LIngest (b : pos) (data : pos -> N).
+
+(* handlePostLabels (handlers.go): each list is stored as given under its label key; label 0 is
+   skipped; nothing is sent to subscribers *)
+Definition post_labels (ls : list (N * list elem)) (lb : amap N) : amap N :=
+  fold_left (fun acc le => if (fst le =? 0)%N then acc else aput (fst le) (snd le) acc) ls lb.
 
 Definition with_labels (s : state) (r : amap N * delta) (bd : pos -> N) : res state :=
   Ok (mkS (blk s) (tgs s) (fst r) (sz_apply (cnt s) (snd r)) bd).
@@ -486,6 +492,7 @@ Definition step (c : cfg) (bs : pos) (o : op) (s : state) : res state :=
   | ODelete p => delete_element bs p s
   | OMove f t => move_element c bs f t s
   | OReload bl => reload c bs bl s
+  | OLabels ls => Ok (mkS (blk s) (tgs s) (post_labels ls (lbl s)) (cnt s) (body s))
   | LMerge t m => with_labels s (merge_labels t m s) (body_after bs o (body s))
   | LCleave t cl incl => with_labels s (cleave_labels t cl incl s) (body_after bs o (body s))
   | LSplit o' n bl f => with_labels s (split_labels o' n bl f s) (body_after bs o (body s))
@@ -552,6 +559,7 @@ Definition guard (bs : pos) (G : list elem) (bd : pos -> N) (o : op) : Prop :=
   | ODelete p => refs_listed bs G p
   | OMove f t => refs_listed bs G f
   | OReload bl => NoDup (map fst bl)
+  | OLabels ls => forall l es, In (l, es) ls -> l <> 0%N -> Permutation es (map nr (filter (on_body bd l) G))
   | LMerge t m => t <> 0%N /\ NoDup m /\ ~ In t m /\ ~ In 0%N m
   | LCleave t c _ => t <> 0%N /\ c <> 0%N /\ c <> t /\ (forall p, bd p <> c)
   | LSplit o n bl inspl => o <> 0%N /\ n <> 0%N /\ n <> o /\ NoDup bl
